@@ -275,14 +275,14 @@ impl C17 {
         let mut sess = Session::start(&[]).map_err(|e| Fail::new("harness", e))?;
         sess.send(&format!("position fen {}", text));
         sess.send("isready");
-        let Some(lines1) = sess.read_until(|l| uci::readyok(l), 5000) else {
+        let Some(lines1) = sess.read_until(|l| uci::readyok(l), 15_000) else {
             let pan = sess.panicked();
             let alive = sess.alive();
             sess.kill();
             return Err(Fail::new("fen-import-panics", format!("position fen {:?}: no readyok afterwards (alive={}, stderr: {:?})", text, alive, pan)));
         };
         sess.send("show");
-        let Some(lines2) = sess.read_until(|l| l.starts_with("   a b c") || l.starts_with("error: No game"), 5000) else {
+        let Some(lines2) = sess.read_until(|l| l.starts_with("   a b c") || l.starts_with("error: No game"), 15_000) else {
             sess.kill();
             return Err(Fail::new("fen-import-panics", format!("position fen {:?}: `show` unanswered", text)));
         };
